@@ -64,7 +64,7 @@ def dummy_tables():
 
 def registry(mode):
     import glob
-    srcs = [f for f in glob.glob('/repo/src/**/*.cpp', recursive=True) + glob.glob('/repo/src/**/*.cc', recursive=True) if '/cli/' not in f and '/unused/' not in f and '/sqc/' not in f and '/export/' not in f]
+    srcs = [f for f in glob.glob(loader.REPO + '/src/**/*.cpp', recursive=True) + glob.glob(loader.REPO + '/src/**/*.cc', recursive=True) if '/cli/' not in f and '/unused/' not in f and '/sqc/' not in f and '/export/' not in f]
     exe = native.build('opsdump', sorted(srcs) + ['/verif/harness/opsdump.cpp'], sanitize=False)
     rc, out, err = native.run(exe, [mode] if mode else [], timeout=120)
     sigs = []
